@@ -44,6 +44,9 @@ def twin_pair(rng, region, length, classc, keep=False):
         net.join_accept(dl_settings=rng.choice([0, 0x12]), rx_delay=rng.choice([1, 3]))
     else:
         net.abp()
+        if rng.chance(1, 5):
+            # the last uplink counters of a session: a rejected frame must not end the session either
+            net.op("patch up=%d" % rng.choice([0xFFFFFFFF, 0xFFFFFFFE, 0xFFFFFFFD]))
     base, twin, pos, kept = [], [], [], []
 
     def both(op):
